@@ -1,6 +1,7 @@
 package rules
 
 import (
+	"go/token"
 	"fmt"
 	"go/types"
 	"sort"
@@ -103,6 +104,9 @@ func c10Config(precise bool) TaintConfig {
 }
 
 func runC10(c *core.Ctx) {
+	ruleNoAllocBySizeDeclared(c, "R10.alloc")
+	ruleNoSwallowedLayerErrors(c, "R10.swallow", moduleErrCallee, "/pwr", "/pwr/patcher", "/pwr/bowl", "/pwr/rediff", "/pwr/overlay", "/wire", "/wsync", "/bsdiff", "/bsdiff/lrufile", "/multiread", "/ctxcopy")
+	ruleNoDroppedLayerErrors(c, "R10.err", "/pwr", "/pwr/patcher", "/pwr/bowl", "/pwr/rediff", "/pwr/overlay", "/wire", "/wsync", "/bsdiff", "/multiread", "/ctxcopy")
 	c.Rule("R10.sink", "wire-derived integers reach index/slice/make/divide/pool-call sinks only under a two-sided range guard or an equality with trusted data")
 	c.Rule("R10.len", "slicing SignatureInfo.Hashes is dominated by a comparison of the same bound with len(Hashes)")
 	e := RunTaint(c.P, taintScope(c.P), c10Config(c.Tier == "thorough"))
@@ -313,5 +317,121 @@ func fixturesC10(fc *core.Ctx) map[string]bool {
 			rep[family(s.Fn).Name()] = true
 		}
 	}
+	for _, fn := range fns {
+		if len(declaredSizeAllocs(fn)) > 0 {
+			rep[family(fn).Name()] = true
+		}
+	}
 	return rep
+}
+
+// moduleErrCallee: a statically resolved call to a function of the module (its failure is a failure of the
+// layers below it).
+func moduleErrCallee(c ssa.CallInstruction) (string, bool) {
+	f := c.Common().StaticCallee()
+	if f == nil || !core.InModule(f) || len(f.Blocks) == 0 {
+		return "", false
+	}
+	return core.FnName(f), true
+}
+
+// declaredSizeOrigin reports whether v derives - through arithmetic, conversions and calls of module
+// functions (their results from their arguments) - from a size a container merely declares
+// (tlc.Container.Size, tlc.File.Size): a number the stream states, before any of the data it promises was
+// read. Containers are trusted to be well-formed, not to be small.
+func declaredSizeOrigin(v ssa.Value, depth int, seen map[ssa.Value]bool) string {
+	if v == nil || depth > 8 || seen[v] {
+		return ""
+	}
+	seen[v] = true
+	for _, o := range core.Origins(v) {
+		switch x := core.StripConv(o).(type) {
+		case *ssa.BinOp:
+			if s := declaredSizeOrigin(x.X, depth+1, seen); s != "" {
+				return s
+			}
+			if s := declaredSizeOrigin(x.Y, depth+1, seen); s != "" {
+				return s
+			}
+		case *ssa.Convert:
+			if s := declaredSizeOrigin(x.X, depth+1, seen); s != "" {
+				return s
+			}
+		case *ssa.Call:
+			if f := x.Call.StaticCallee(); f != nil && core.InModule(f) {
+				for _, a := range x.Call.Args {
+					if s := declaredSizeOrigin(a, depth+1, seen); s != "" {
+						return s
+					}
+				}
+			}
+		default:
+			if b, n, ok := core.FieldOf(o); ok && n == "Size" {
+				tn := core.TypeName(b.Type())
+				if tn == "github.com/itchio/lake/tlc.Container" || tn == "github.com/itchio/lake/tlc.File" {
+					return tn + ".Size"
+				}
+			}
+		}
+	}
+	return ""
+}
+
+// declaredSizeAllocs lists the allocations of fn whose length or capacity derives from a declared size
+// without a dominating upper bound on that operand.
+func declaredSizeAllocs(fn *ssa.Function) []ssa.Instruction {
+	var out []ssa.Instruction
+	core.Instrs(fn, func(in ssa.Instruction) {
+		var ops []ssa.Value
+		switch x := in.(type) {
+		case *ssa.MakeSlice:
+			ops = []ssa.Value{x.Len, x.Cap}
+		case *ssa.MakeMap:
+			if x.Reserve != nil {
+				ops = []ssa.Value{x.Reserve}
+			}
+		case *ssa.MakeChan:
+			ops = []ssa.Value{x.Size}
+		default:
+			return
+		}
+		for _, op := range ops {
+			if _, isC := core.ConstInt(op); isC || op == nil {
+				continue
+			}
+			if declaredSizeOrigin(op, 0, map[ssa.Value]bool{}) == "" {
+				continue
+			}
+			bounded := hasGuard(in, func(g core.Guard) bool {
+				isOp := func(v ssa.Value) bool { return sameVal(core.StripConv(v), core.StripConv(op)) || sameExpr(v, op) }
+				return relHolds(g, token.LEQ, isOp, anyVal) || relHolds(g, token.LSS, isOp, anyVal)
+			})
+			if !bounded {
+				out = append(out, in)
+				return
+			}
+		}
+	})
+	return out
+}
+
+func ruleNoAllocBySizeDeclared(c *core.Ctx, rule string) {
+	c.Rule(rule, "no allocation is sized by a size the stream merely declares")
+	n := 0
+	for _, fn := range c.P.SrcFuncs() {
+		if !core.InModule(fn) {
+			continue
+		}
+		core.Instrs(fn, func(in ssa.Instruction) {
+			switch in.(type) {
+			case *ssa.MakeSlice, *ssa.MakeMap, *ssa.MakeChan:
+				n++
+			}
+		})
+		for _, in := range declaredSizeAllocs(fn) {
+			c.Bad(rule, core.FnName(fn), "allocation sized by a declared size: "+core.Describe(in.(ssa.Value)), core.InstrPos(in),
+				"the length or capacity derives from tlc.Container.Size / tlc.File.Size, which the stream declares before any of the promised data was read, and no dominating test bounds it: a small stream that declares a huge (or negative) size makes the allocation panic or exhaust memory")
+		}
+	}
+	c.Floor(rule, "dynamic allocations in the module", n, 10)
 }
